@@ -342,3 +342,12 @@ def c16(run):
 
 
 CHECKS['C16'] = c16
+
+
+def c_dev16(run):
+    from .rules import r16_tables
+    r16_tables.tables_c13(run)
+    run.explanation = 'dev R16'
+
+
+CHECKS['DEV16'] = c_dev16
